@@ -160,7 +160,8 @@ class ListField(Field):
 
     def __setdefault__(self, cfg: Config) -> None:
         default = self.default
-        if isinstance(default, list):
+        if isinstance(default, (list, tuple)):
+            # a tuple default is stored like an assigned tuple: as a (typed) list
             if self.field:
                 default = ListProxy(cfg, self, default)
             else:
